@@ -22,7 +22,7 @@ pub fn spec() -> Spec {
         case_cap_s: |t| t.pick(600, 7200),
         rule: "family '2d': one case per connected 2-dimensional symbol with curvature 0: every class of D-sets of size <= N x every branching vector over 1..6 (degenerate degrees included); family '3d': every admissible 3-dimensional symbol (spherical tiles and vertex figures by the reference model, branching in {1,2,3,4,6}) on every class of D-sets of size <= M, each under every relabeling (size <= 3; systematic family above) and its dual; family 'corpus': the 20 known-euclidean symbols of the repository's tests under relabelings and dual. Oracle 2d: a result exists, covers the input (searched morphism with equal fibres), is oriented, all v = 1 and s0(d) != s2(d), curvature 0, H1 = Z^2 by textbook presentation + invariant factors. Oracle 3d: a returned cover is oriented, branch-free, covers the input, H1 = [0,0,0], sheet number over the oriented cover in {1,2,3,4,6,8,12,24}; Some/None and sheet number equal across relabelings and the dual; corpus symbols return Some. Non-trivial = a cover is returned.",
         assumptions: &["H1 is computed by the reference model (textbook presentation + i128 elimination with overflow detection); an overflow is reported as 'undecided' in the counters, never as a verdict"],
-        bounds: |t| json!({"dim2_max_size": t.pick(5, 7), "dim2_V": [1,2,3,4,5,6], "dim3_max_size": t.pick(3, 4), "dim3_V": [1,2,3,4,6], "prism_family": {"base_2d_max_size": t.pick(4, 5)}, "cover_family": {"sheets": t.pick(4, 6), "max_chambers": t.pick(12, 18), "renumberings_per_cover": t.pick(json!("2, existence and sheet number only"), json!("all 9 systematic + dual; the returned cover validated in full for the numbering covers() produces, existence and sheet number for the others"))}}),
+        bounds: |t| json!({"dim2_max_size": t.pick(5, 7), "dim2_V": [1,2,3,4,5,6], "dim3_max_size": t.pick(3, 4), "dim3_V": [1,2,3,4,6], "prism_family": {"base_2d_max_size": t.pick(4, 5)}, "cover_family": {"sheets": t.pick(4, 5), "max_chambers": t.pick(12, 15), "renumberings_per_cover": t.pick(json!("2, existence and sheet number only"), json!("5 + dual; the returned cover validated in full for the numbering covers() produces, existence and sheet number for the others"))}}),
     }
 }
 
@@ -143,13 +143,13 @@ fn check_3d(ctx: &mut Ctx, family: &str, s: &RS, must_have: bool) {
     check_3d_limited(ctx, family, s, must_have, usize::MAX, 0);
 }
 
-/// covers (up to 4 [6] sheets, at most 12 [18] chambers) of the small symbols that have a pseudo-toroidal cover:
+/// covers (up to 4 [5] sheets, at most 12 [15] chambers) of the small symbols that have a pseudo-toroidal cover:
 /// larger symbols of the same crystallographic groups and of their subgroups, in the numbering `covers`
 /// produces and under systematic renumberings
 fn cover_family(ctx: &mut Ctx) {
     let tier = ctx.tier;
-    let k = tier.pick(4, 6);
-    let cap = tier.pick(12, 18);
+    let k = tier.pick(4, 5);
+    let cap = tier.pick(12, 15);
     for n in 1..=3usize {
         for s in admissible_symbols(n) {
             // every worker lists the covers of every base and takes its share of the covers
@@ -172,7 +172,7 @@ fn cover_family(ctx: &mut Ctx) {
                 }
                 ctx.add("cover_family_symbols", 1);
                 let t0 = std::time::Instant::now();
-                check_3d_limited(ctx, "cover", &c, false, tier.pick(2, usize::MAX), tier.pick(1, 2));
+                check_3d_limited(ctx, "cover", &c, false, tier.pick(2, 5), tier.pick(1, 2));
                 ctx.add("cpu_ms_cover_family_checks", t0.elapsed().as_millis() as i64);
                 if ctx.nviolations() > 0 {
                     return;
